@@ -42,6 +42,7 @@ PROPS = {
             "Replicon.C01.C01_joiner_converges",
             "Replicon.C01.C01_joiner_values",
             "Replicon.C01.C01_history_same_entities",
+            "Replicon.C01.C01_history_same_entities_any_schedule",
             "Replicon.C01.C01_known_finding_F4_witness",
             "Replicon.C01.C01_known_finding_F4_server_value",
         ],
@@ -211,6 +212,7 @@ PROPS = {
             "Replicon.C09.C09_fresh_session",
             "Replicon.C09.C09_new_session_round_trip",
             "Replicon.C09.C09_server_state_is_fresh",
+            "Replicon.C09.C09_history_session_clean",
         ],
         "profiles": [{"name": "sys", "shards": {"thorough": 8}}, {"name": "sys_auth", "shards": {"thorough": 4}},
                      {"name": "sys_evt", "shards": {"thorough": 4}}],
@@ -444,7 +446,7 @@ PROPS = {
 
 MANIFEST_TEXT = {
     "C01": {
-        "text": "Per-run halves of the convergence argument are Lean theorems about the protocol models: progress (an entity the client lacks is sent whole; a value newer than the server's belief is sent whenever its rate fires; a visible despawned entity is in DESPAWNS) and stability (nothing pending and nothing to say => the run sends nothing and changes nothing; a client frame without messages changes nothing). Across both models: a client that joins a quiescent server holds, after one perfect round, every replicated entity with exactly the server's replicated components and values and nothing else (C01_joiner_converges, C01_joiner_values: the server model's message applied by the client model, for every server world; blacklist, no entity-valued components). Over ALL histories of the joint model and across both models the client model fed a session's update messages in order holds exactly the marked entities visible to it (C01_history_same_entities). For values, the induction joining progress and stability over arbitrary histories with an already known client (C01_converges_partial) is NOT proved; convergence and absence of panics are checked on the implementation at the end of every generated trace, with both models in lock step (0 disagreements required).",
+        "text": "Per-run halves of the convergence argument are Lean theorems about the protocol models: progress (an entity the client lacks is sent whole; a value newer than the server's belief is sent whenever its rate fires; a visible despawned entity is in DESPAWNS) and stability (nothing pending and nothing to say => the run sends nothing and changes nothing; a client frame without messages changes nothing). Across both models: a client that joins a quiescent server holds, after one perfect round, every replicated entity with exactly the server's replicated components and values and nothing else (C01_joiner_converges, C01_joiner_values: the server model's message applied by the client model, for every server world; blacklist, no entity-valued components). Over ALL histories of the joint model and across both models the client model fed a session's update messages in order holds exactly the marked entities visible to it (C01_history_same_entities), also with arbitrary mutate messages — lost, duplicated, reordered, stale — arriving anywhere in between (C01_history_same_entities_any_schedule). For values, the induction joining progress and stability over arbitrary histories with an already known client (C01_converges_partial) is NOT proved; convergence and absence of panics are checked on the implementation at the end of every generated trace, with both models in lock step (0 disagreements required).",
         "design_ref": "DESIGN.md §7 C01",
         "note": 'partial: the end-to-end convergence theorem is replaced by per-run theorems + oracle on the implementation + exact model correspondence. Known findings F4 (periodic) and F20 (tick-0 race) are reported, tagged by the trace checker.',
         "technique": "Lean 4 proof (per-run theorems about executable server/client protocol models) + lock-step model/implementation correspondence on real traces + property oracle on the implementation",
@@ -492,7 +494,7 @@ MANIFEST_TEXT = {
         "technique": "Lean 4 proof (per-run theorems about executable server/client protocol models) + lock-step model/implementation correspondence on real traces + property oracle on the implementation",
     },
     "C09": {
-        "text": "Lean theorems about the models: in the client's first frame after the session ended its update tick, entity map (both directions), buffered mutate messages and acknowledgements are reset whatever was delivered (C09_client_reset); the server keeps nothing of a disconnected client and nothing after stop+reset (C09_server_forgets_client, C09_server_reset); a new session starts from fresh replication state (C09_fresh_session, C09_server_state_is_fresh) and converges in one perfect round whatever the old session left on the client — the server model's message for a client it has no state for, applied by the client model after its reset, yields exactly the server's view and leaves the client's other entities alone (C09_new_session_round_trip). Absence of panics and convergence of the new session are checked on the implementation.",
+        "text": "Lean theorems about the models: in the client's first frame after the session ended its update tick, entity map (both directions), buffered mutate messages and acknowledgements are reset whatever was delivered (C09_client_reset); the server keeps nothing of a disconnected client and nothing after stop+reset (C09_server_forgets_client, C09_server_reset); a new session starts from fresh replication state (C09_fresh_session, C09_server_state_is_fresh) and converges in one perfect round whatever the old session left on the client — the server model's message for a client it has no state for, applied by the client model after its reset, yields exactly the server's view and leaves the client's other entities alone (C09_new_session_round_trip). Over ALL histories of the joint model with any number of disconnects, reconnects, stops and restarts, and across both models: the fresh client model fed the update messages of the client's current session (the ghost log is emptied at connect) in order holds exactly the replicated entities visible to it, none of the messages failing (C09_history_session_clean). Absence of panics and convergence of the new session are checked on the implementation.",
         "design_ref": "DESIGN.md §7 C09",
         "note": 'Known finding F13 (client panic after disconnect under the default protocol check) is reported, tagged by the trace checker. Process crashes are not a notion of this in-memory library: crash points are session cuts.',
         "technique": "Lean 4 proof (per-run theorems about executable server/client protocol models) + lock-step model/implementation correspondence on real traces + property oracle on the implementation",
